@@ -258,7 +258,7 @@ def crystal(rng: random.Random, max_N: int = 8, protos=None, allow_random=True, 
     names = list(protos) if protos else list(PROTOTYPES)
     for _ in range(1000):
         if allow_random and rng.random() < 0.35:
-            nb = rng.randint(1, 2)
+            nb = rng.choice([1, 2, 2, 3])
             name = f"tric{nb}"
             L, B, Z = random_triclinic(rng, nb)
         else:
